@@ -17,7 +17,7 @@ LEVEL_TEXT = ("Static structural proof of necessary conditions: (R17.1/R17.2) al
               "the validator call with its raise dominates dispatcher construction; (R17.5) every registered class defines "
               "PARAMS, do_op and validate_input_data; (R17.6) in the dispatcher loop each do_op is bracketed by the "
               "n/a->NaN and NaN->n/a conversions. What each operation computes is NOT decided.")
-LEVEL_EXTRA = 'Added after the seeded evaluation: (R17.3) optional keys of nested item parameters are not subscripted unguarded. Added after the hunting pass: (R17.7) in the operations the first row of a boolean-mask selection is taken only under an emptiness test. (R17.8) operation constructors never mutate their parameters; (R17.9) a do_op that selects rows returns through reset_index(drop=True).'
+LEVEL_EXTRA = 'Added after the seeded evaluation: (R17.3) optional keys of nested item parameters are not subscripted unguarded. Added after the hunting pass: (R17.7) in the operations the first row of a boolean-mask selection is taken only under an emptiness test. (R17.8) operation constructors never mutate their parameters; (R17.9) a do_op that selects rows returns through reset_index(drop=True). (R17.10) a parameter is handed on to every repository callee that takes a parameter of the same name (11 frozen exceptions package-wide).'
 
 NAMED = ["remove_rows", "remove_columns", "rename_columns", "reorder_columns", "factor_column", "remap_columns",
          "merge_consecutive", "split_rows"]
@@ -366,3 +366,8 @@ def run(ctx):
                   "(merge_consecutive reads labels as positions) raises IndexError/KeyError or merges the wrong rows",
                   desc="%s: returned through reset_index(drop=True)" % cls.name)
     ctx.floor("R17.9", "row-selecting operations", n_sel, 2)
+
+    # ---------------- R17.10: parameters are handed on to same-named parameters of repository callees
+    from sa.forward import check_forwarding
+    nfw = check_forwarding(ctx, "R17.10", [f for f in prog.functions.values() if f.module.name.startswith(('hed.tools.remodeling.operations', 'hed.tools.remodeling.dispatcher', 'hed.tools.remodeling.remodeler_validator'))], 'e.g. the sidecar, the file name')
+    ctx.floor("R17.10", "same-named parameter sites", nfw, 1)
